@@ -420,10 +420,13 @@ def run(plan, ch, want_log=False):
                     results["writer_close_err"] += 1     # e.g. the key was purged meanwhile
             elif kind in ("read", "read_leak"):
                 key = op[1]
+                # judged on what was true BEFORE the request left: a close that the server handles after this get is no
+                # reason for the get to succeed (false alarm of check request 3, seed 1 noreuse #599)
+                was_closed = key in closed_ok
                 buf, err = api_call(client.get, key, timeout_sec=2.0)
                 if buf is None:
                     results["get_" + type(err).__name__] += 1
-                    if isinstance(err, ValueError) and not isinstance(err, TimeoutError) and key in never_purged and key in closed_ok \
+                    if isinstance(err, ValueError) and not isinstance(err, TimeoutError) and key in never_purged and was_closed \
                             and not plan.get("faults") and key not in leaked_write_keys:
                         # written, closed, never purged, no fault injected: the store has no reason to refuse it
                         mon.v("C09", "get_failed_for_live_dataset", (key, str(err)[:100]))
